@@ -2,6 +2,8 @@ package bill
 
 import (
 	"errors"
+	"fmt"
+	"strconv"
 
 	"github.com/invopop/gobl/cal"
 	"github.com/invopop/gobl/cbc"
@@ -98,7 +100,9 @@ func calculate(doc billable) error {
 	}
 
 	// Preceding
-	calculateOrgDocumentRefs(doc.getPreceding(), cur, rr)
+	if err := calculateOrgDocumentRefs(doc.getPreceding(), cur, rr); err != nil {
+		return err
+	}
 
 	// Lines
 	if err := calculateLines(doc.getLines(), cur, doc.getExchangeRates(), rr); err != nil {
@@ -201,13 +205,27 @@ func calculate(doc billable) error {
 	return nil
 }
 
-func calculateOrgDocumentRefs(drs []*org.DocumentRef, cur currency.Code, rr cbc.Key) {
-	for _, drs := range drs {
-		if drs.Currency != currency.CodeEmpty {
-			cur = drs.Currency
+func calculateOrgDocumentRefs(drs []*org.DocumentRef, cur currency.Code, rr cbc.Key) error {
+	for i, dr := range drs {
+		if dr == nil {
+			continue
 		}
-		drs.Calculate(cur, rr)
+		if dr.Currency != currency.CodeEmpty {
+			cur = dr.Currency
+		}
+		c := cur
+		if c.Def() == nil {
+			return validation.Errors{
+				"preceding": validation.Errors{
+					strconv.Itoa(i): validation.Errors{
+						"currency": fmt.Errorf("invalid code '%v'", c),
+					},
+				},
+			}
+		}
+		dr.Calculate(c, rr)
 	}
+	return nil
 }
 
 func canRemoveIncludedTaxes(doc billable) bool {
